@@ -6,8 +6,13 @@ use std::process::{Command, Stdio};
 use std::sync::atomic::{AtomicUsize, Ordering};
 use std::time::{Duration, Instant};
 
-pub const ASCA_BIN: &str = "/verif/target/asca/release/asca";
-pub const SIMIO: &str = "/verif/target/libsimio.so";
+/// build products live under <verif dir>/target (the verif dir is /verif unless VERIF_DIR says otherwise)
+pub fn asca_bin() -> String {
+    format!("{}/target/asca/release/asca", crate::gen::verif_dir())
+}
+pub fn simio() -> String {
+    format!("{}/target/libsimio.so", crate::gen::verif_dir())
+}
 
 pub fn self_exe() -> String {
     std::env::current_exe().expect("current_exe").to_string_lossy().into_owned()
@@ -95,7 +100,7 @@ pub fn run(spec: RunSpec) -> std::io::Result<RunOut> {
 }
 
 pub fn sim_env(detrand: u64) -> Vec<(String, String)> {
-    vec![("LD_PRELOAD".into(), SIMIO.into()), ("DETRAND_SEED".into(), detrand.to_string())]
+    vec![("LD_PRELOAD".into(), simio()), ("DETRAND_SEED".into(), detrand.to_string())]
 }
 
 /// Deterministic parallel map: item i is computed by whichever worker gets to it, the
